@@ -119,7 +119,7 @@ def execute(case, r):
             return ret_small(SecBootBlckSize.to_num_blocks(a["n"]))
         if fn == "hex_string":
             s = "".join(a["s"])
-            src = r.choice([s, "0x" + s, "0X" + s])
+            src = [s, "0x" + s, "0X" + s][a.get("form", r.randrange(3))]
             return ret_bytes(M.load_hex_string(src, a["size"]))
     except SPSDKError:
         return {"k": "err"}
@@ -211,6 +211,16 @@ def sampled_cases(r, n):
         lo, hi, x = (r.getrandbits(30) for _ in range(3))
         x = r.choice([x, lo, hi, lo - 1 if lo else lo, hi + 1])
         cases.append({"fn": "check_range", "a": {"x": x, "lo": lo, "hi": hi}})
+        # blocks longer than one period of the patterns (inc repeats every 256 bytes), alone and as padding
+        pat = r.choice([{"kind": "inc"}, {"kind": "inc"}, {"kind": "bytes", "b": [r.randrange(1, 256) for _ in range(r.choice([1, 2, 3, 4]))]}, {"kind": "ones"}])
+        cases.append({"fn": "pattern_block", "a": {"p": pat, "n": r.choice([254, 255, 256, 257, 258, 511, 512, 513, 600])}})
+        if i % 10 == 0:
+            cases.append({"fn": "align_block", "a": {"d": [r.randrange(256) for _ in range(r.randrange(1, 40))], "a": r.choice([300, 512, 1024]), "p": {"kind": "inc"}}})
+        # key-like hex text that begins with the characters of a radix prefix ("0b..", "0B.."): still hexadecimal
+        if i % 5 == 0:
+            size = r.choice([2, 4, 16, 32])
+            txt = r.choice(["0b", "0B", "0b"]) + "".join(r.choice("0123456789abcdefABCDEF") for _ in range(2 * size - 2))
+            cases.append({"fn": "hex_string", "a": {"s": list(txt), "size": size}})
         d = [r.randrange(256) for _ in range(r.randrange(0, 70))]
         cases.append({"fn": "align_block", "a": {"d": d, "a": r.choice([1, 2, 4, 8, 16, 64]),
                                                   "p": r.choice([{"kind": "zeros"}, {"kind": "ones"}, {"kind": "inc"}, {"kind": "bytes", "b": [r.randrange(1, 256)]}])}})
@@ -251,6 +261,9 @@ def run(tier):
             if tuple(s) not in seen:
                 seen.add(tuple(s))
                 cases.append({"fn": "value_to_int_str", "a": {"s": list(s)}})
+
+    # every hex text is offered bare, with 0x and with 0X (the contract is the same for the three forms)
+    cases = [c if c["fn"] != "hex_string" else {"fn": c["fn"], "a": dict(c["a"], form=f)} for c in cases for f in ((0, 1, 2) if c["fn"] == "hex_string" else (0,))]
 
     # ---- execute on the real code
     obs = []
